@@ -458,6 +458,8 @@ pub struct VerifStats {
     pub resend_queue_len: usize,
     pub send_rate: f64,
     pub flush_alloc: isize,
+    /// The RTO as last computed by the send rate controller (paces sync / keepalive frames)
+    pub rto_ms: Option<u64>,
 }
 
 #[cfg(feature = "uflow_verif")]
@@ -472,6 +474,7 @@ impl HalfConnection {
             resend_queue_len: self.resend_queue.len(),
             send_rate: self.send_rate_comp.send_rate(),
             flush_alloc: self.flush_alloc,
+            rto_ms: self.send_rate_comp.rto_ms(),
         }
     }
 }
